@@ -79,6 +79,7 @@ def analyse(sess, outs, strict_lockstep=False):
     ctxs = {}        # ctx register -> (fid, crc, pos)
     info = {}        # op index -> derived facts for later ops
     enc_state = None     # last seen encapsulator state string
+    snd_xor = 0          # constant xor-ed into the CRC by the calculator currently set on the encapsulator
     # reference sender (C04 / C15)
     snd_enabled, snd_max, snd_prev, snd_run = True, 0, None, 0
     # receiver side references
@@ -171,6 +172,7 @@ def analyse(sess, outs, strict_lockstep=False):
             enc_state = o.state
             if kind == "enc_new":
                 snd_enabled, snd_max, snd_prev, snd_run = True, 0, None, 0
+                snd_xor = 0
             elif kind == "enc_reset":
                 snd_prev = None
             elif kind == "enc_disable":
@@ -180,7 +182,7 @@ def analyse(sess, outs, strict_lockstep=False):
             elif kind == "enc_enable_max":
                 snd_enabled, snd_max, snd_run = True, op["n"], 0
             elif kind == "enc_set_crc":
-                pass        # replacing the calculator does not touch the re-use policy
+                snd_xor = op.get("n") or 0       # replacing the calculator does not touch the re-use policy
 
         # ------------------------------------------------------------------ encapsulation
         elif kind in ("encap", "encap_ext", "encap_frag"):
@@ -351,7 +353,7 @@ def analyse(sess, outs, strict_lockstep=False):
                       % (pk.total_len, 2 + wlen + len(pdu), "; a PDU exceeding the 16-bit total length must be refused" if 2 + wlen + len(pdu) > 65535 else ""))
                 tl = (len(pdu) + 2 + wlen) & 0xFFFF
                 lb = pk.label.data if wl in "63" else b""
-                exp_crc = ref_gse_crc(pdu, op["pt"], tl, lb)
+                exp_crc = ref_gse_crc(pdu, op["pt"], tl, lb) ^ snd_xor      # the calculator currently set on the encapsulator
                 if ncrc != exp_crc:
                     F(i, ["C12", "C02"] + (["C13"] if exts else []), "context crc %08x, CRC-32/MPEG-2 of tl|pt|label|pdu is %08x" % (ncrc, exp_crc))
                 fact["payload_len"] = k
@@ -378,6 +380,7 @@ def analyse(sess, outs, strict_lockstep=False):
             else:
                 mand = dict(mg) if mg else {}
             rx_last = None
+            sess._rcv_xor = op.get("crc") or 0      # the calculator handed to Decapsulator::new
             trains = {}
             created, owned, held, lost_by_contract = set(), set(), {}, set()
             ref_mem = {"cap": op["slots"] + 2, "n": op["slots"], "sz": op["maxpdu"], "free": [], "slots": [None] * op["slots"]}
@@ -846,7 +849,7 @@ def decap_oracle(i, op, so, o, fed, mand, rx_last, trains, info, strict, sess, F
                     P = bytes(t.payload)
                     lb = t.label.data if t.lt in "63" else b""
                     ok_len = len(P) + 2 + len(lb) == t.total_len
-                    ok_crc = ref_gse_crc(P, t.pt, t.total_len, lb) == pk.crc
+                    ok_crc = ref_gse_crc(P, t.pt, t.total_len, lb) ^ sess.__dict__.get("_rcv_xor", 0) == pk.crc
                     if so.toks[1] != "C":
                         F(i, ["C02"], "end fragment answered with status %s" % so.toks[1])
                     else:
